@@ -177,7 +177,9 @@ def invoke(sess: t.Any, role: str, call: t.Dict[str, t.Any], rnd: random.Random)
         elif op == "send":
             k, i = call["k"], call["id"]
             ctl = msggen.r_controls(rnd)
-            code = s.LDAPResultCode(rnd.choice((0, 0, 49, 32, 2, 80, 4096)))
+            code = s.LDAPResultCode(rnd.choice((0, 0, 49, 32, 2, 80, 4096, 118, 123)))
+            if k in ("bindRespOk", "extResp", "done"):
+                obs["intent"] = {"code": int(code.value)}   # what the application asked to be sent (compared with what is queued)
             if k == "bindRespOk":
                 obs["ret"] = sess.bind_response(i, sasl_creds=msggen.r_opt_bytes(rnd), result_code=code, matched_dn=msggen.r_text(rnd) or None, controls=ctl)
             elif k == "bindRespProg":
